@@ -64,6 +64,23 @@ class Inconclusive(Exception):
     judge."""
 
 
+def _perturb_environment(case):
+    """No property allows a result to depend on the terminal size, the time zone or the umask of the calling process:
+    every case runs under one of 60 combinations, chosen from the case itself (so a replay sees the same one)."""
+    import time
+    import zlib
+    h = zlib.crc32(repr(case).encode("utf-8", "backslashreplace"))
+    cols = (20, 40, 80, 80, 132, 250)[h % 6]
+    tz = ("UTC", "Asia/Kolkata", "America/St_Johns", "Pacific/Auckland")[(h // 6) % 4]
+    um = (0o022, 0o077, 0o002)[(h // 24) % 3]
+    os.environ["COLUMNS"] = str(cols)
+    os.environ["LINES"] = str((10, 24, 50)[(h // 72) % 3])
+    os.environ["TZ"] = tz
+    time.tzset()
+    os.umask(um)
+    return f"cols={cols},tz={tz},umask={um:03o}"
+
+
 def _child_main(fn, case, scratch, wfd, mem_limit):
     try:
         os.setsid()
@@ -82,8 +99,11 @@ def _child_main(fn, case, scratch, wfd, mem_limit):
         os.makedirs(scratch, exist_ok=True)
         os.chdir(scratch)
         os.environ["HOME"] = scratch
+        envtag = _perturb_environment(case)
         try:
             res = fn(case, scratch)
+            if isinstance(res, dict) and isinstance(res.get("counters"), dict):
+                res["counters"]["environment:" + envtag] = 1
         except Inconclusive as exc:
             res = {"inconclusive": str(exc)}
         except BaseException:  # harness error, not a verdict
